@@ -315,7 +315,80 @@ func concurrentRun(n, m int, seed uint64) string {
 	return "agree"
 }
 
+// a streamed upload that is still open (Create and a Write done, Close not yet called) must not hold up a request on
+// an unrelated resource: the small upload gets the answer it gets alone, promptly
+func openUploadRun() string {
+	tmp := os.TempDir()
+	if st, err := os.Stat("/dev/shm"); err == nil && st.IsDir() {
+		tmp = "/dev/shm"
+	}
+	dir, err := os.MkdirTemp(tmp, fmt.Sprintf("verif-fs-%d-open-", os.Getpid()))
+	if err != nil {
+		return "setup-error"
+	}
+	defer os.RemoveAll(dir)
+	h := &webdav.Handler{FileSystem: webdav.LocalFileSystem(dir)}
+	ts := httptest.NewServer(h)
+	defer ts.Close()
+	c, err := webdav.NewClient(ts.Client(), ts.URL)
+	if err != nil {
+		return "setup-error"
+	}
+	ctx := context.Background()
+	if c.Mkdir(ctx, "/c1") != nil || c.Mkdir(ctx, "/c2") != nil {
+		return "setup-error"
+	}
+	big, err := c.Create(ctx, "/c1/big")
+	if err != nil {
+		return "setup-error"
+	}
+	if _, err := big.Write(bytes.Repeat([]byte("A"), 64<<10)); err != nil {
+		return "setup-error"
+	}
+	time.Sleep(50 * time.Millisecond) // let the server start on the open upload
+	done := make(chan error, 1)
+	go func() {
+		cctx, cancel := context.WithTimeout(ctx, 4*time.Second)
+		defer cancel()
+		w, err := c.Create(cctx, "/c2/small")
+		if err == nil {
+			_, err = w.Write([]byte("small"))
+			if cerr := w.Close(); err == nil {
+				err = cerr
+			}
+		}
+		done <- err
+	}()
+	res := "agree"
+	select {
+	case err := <-done:
+		if err != nil {
+			res = "blocked-by-open-upload"
+		}
+	case <-time.After(6 * time.Second):
+		res = "blocked-by-open-upload"
+	}
+	big.Close()
+	if res == "agree" {
+		if rd, err := c.Open(ctx, "/c2/small"); err == nil {
+			b, _ := io.ReadAll(rd)
+			rd.Close()
+			if string(b) != "small" {
+				res = "differ(content)"
+			}
+		} else {
+			res = "differ(missing)"
+		}
+	}
+	return res
+}
+
 func famConcur(o *Out, r *RNG, thorough bool) {
+	for i := 0; i < 2; i++ {
+		res := guard(openUploadRun)
+		o.Stat("concur.open-upload." + res)
+		o.Emit("conc", "open-upload 1 1", res)
+	}
 	rounds := 3
 	if thorough {
 		rounds = 30
